@@ -76,8 +76,6 @@ func runHelpers(o *core.Options, r *core.Report, col *collector) {
 		if only := os.Getenv("C23SEQ_ONLY"); only != "" && !strings.Contains(g.name, only) {
 			continue
 		}
-		var smu sync.Mutex
-		sampled := false
 		r.Parallel((g.n+chunk-1)/chunk, func(ci int) {
 			var st adStat
 			devs := devLocal{}
@@ -89,16 +87,6 @@ func runHelpers(o *core.Options, r *core.Report, col *collector) {
 				if hc.nt {
 					st.Nontrivial++
 					r.Nontrivial(core.Hash(hc.name, insKey(hc.c.Inputs), hc.c.Extra, fmt.Sprint(hc.c.Param)))
-				}
-				if hc.nt && len(hc.c.Script) >= 3 && (hc.name == "iterator.Stream" || hc.name == "iterator.FanInIteratorChannels") && len(hc.c.Inputs)+len(hc.c.Extra) > 1 {
-					smu.Lock()
-					if !sampled && (hc.name != "iterator.Stream" || (strings.Contains(hc.c.Script, "F") && len(tr) > 4 && len(hc.c.Inputs) == 2 && len(hc.c.Inputs[0].Items) > 0)) {
-						sampled = true
-						c := hc.c
-						c.Trace = tr
-						r.Sample(c)
-					}
-					smu.Unlock()
 				}
 				if class == "" {
 					continue
